@@ -144,6 +144,7 @@ type c19Item struct {
 type c19Prog struct {
 	small bool // a 4-5 file program (option sweep) instead of the many-entries one
 	dup   bool // two files in different directories share a base name (never included by one file)
+	sib   bool // sibling directories that include each other: a diamond reached through different relative spellings
 	seed  uint64
 	paths []string // relative path of file i; 0 is the root
 	items []c19Item
@@ -497,6 +498,11 @@ func (g *c19Gen) genFile(i int, incs []int, vendored map[int]bool, big bool) {
 		decls = append(decls, c19Item{file: i, kind: "struct", text: g.doc(30, "") + fmt.Sprintf("struct %s {\n%s}%s\n", name, g.fields(me, incs, nf, false), g.anns(20))})
 		me.structs = append(me.structs, name)
 	}
+	if g.p.sib { // container-typed fields: their generated code numbers temporaries per generator object
+		name := g.id("S")
+		decls = append(decls, c19Item{file: i, kind: "struct", text: fmt.Sprintf("struct %s {\n    1: list<string> %s,\n    2: map<i32, list<i64>> %s,\n    3: set<string> %s,\n}\n", name, g.id("x"), g.id("x"), g.id("x"))})
+		me.structs = append(me.structs, name)
+	}
 	for _, name := range unames {
 		decls = append(decls, c19Item{file: i, kind: "union", text: fmt.Sprintf("union %s {\n%s}%s\n", name, g.fields(me, incs, 2+r.Intn(4), true), g.anns(10))})
 		me.unions = append(me.unions, name)
@@ -627,6 +633,8 @@ var c19Dirs = []string{"", "", "sub1", "sub1/deep", "sub2", "lib/x", "lib/x/y", 
 func (p *c19Prog) seedToken() string {
 	c := "s"
 	switch {
+	case p.sib:
+		c = "w"
 	case p.small && p.dup:
 		c = "v"
 	case p.dup:
@@ -638,12 +646,15 @@ func (p *c19Prog) seedToken() string {
 }
 
 func c19FromToken(tok string) (*c19Prog, bool) {
-	if len(tok) < 2 || !strings.ContainsRune("stuv", rune(tok[0])) {
+	if len(tok) < 2 || !strings.ContainsRune("stuvw", rune(tok[0])) {
 		return nil, false
 	}
 	seed, err := strconv.ParseUint(tok[1:], 10, 64)
 	if err != nil {
 		return nil, false
+	}
+	if tok[0] == 'w' {
+		return c19GenerateSib(seed), true
 	}
 	return c19GenerateKind(seed, tok[0] == 't' || tok[0] == 'v', tok[0] == 'u' || tok[0] == 'v'), true
 }
@@ -652,13 +663,25 @@ func c19Generate(seed uint64) *c19Prog { return c19GenerateKind(seed, false, fal
 
 func c19GenerateSized(seed uint64, small bool) *c19Prog { return c19GenerateKind(seed, small, false) }
 
+// c19GenerateSib: a small program spread over sibling directories a/ and b/ that include each other:
+// the root a/main includes inner/f03 directly and b/f02, which includes ../a/inner/f03 (and a/f01
+// likewise): files reached through DIFFERENT relative spellings, some climbing above the root's directory.
+func c19GenerateSib(seed uint64) *c19Prog {
+	p := c19GenerateKindSib(seed, true, false, true)
+	return p
+}
+
 func c19GenerateKind(seed uint64, small, dup bool) *c19Prog {
+	return c19GenerateKindSib(seed, small, dup, false)
+}
+
+func c19GenerateKindSib(seed uint64, small, dup, sib bool) *c19Prog {
 	r := NewRng(seed)
-	g := &c19Gen{r: r, p: &c19Prog{seed: seed, small: small, dup: dup}}
+	g := &c19Gen{r: r, p: &c19Prog{seed: seed, small: small, dup: dup, sib: sib}}
 	n := 14 + r.Intn(6)
 	if small {
 		n = 4 + r.Intn(2)
-		if dup {
+		if dup || sib {
 			n = 5
 		}
 	}
@@ -677,6 +700,21 @@ func c19GenerateKind(seed uint64, small, dup bool) *c19Prog {
 		}
 		g.p.paths = append(g.p.paths, filepath.Join(dir, name+ext))
 		g.syms = append(g.syms, &c19Syms{name: name})
+	}
+	if sib {
+		for i, d := range []string{"a", "a", "b", "a/inner", "b/deep"} {
+			g.p.paths[i] = filepath.Join(d, filepath.Base(g.p.paths[i]))
+		}
+	} else if !small {
+		// some files of a big program live in (or below) the root file's directory and are included
+		// from elsewhere as well: relative spellings that leave and re-enter that directory
+		rootDir := filepath.Dir(g.p.paths[0])
+		for i := 1; i < n; i++ {
+			if r.Chance(20) {
+				sub := []string{"", "inner"}[r.Intn(2)]
+				g.p.paths[i] = filepath.Join(rootDir, sub, filepath.Base(g.p.paths[i]))
+			}
+		}
 	}
 	if dup { // the two last files get one base name, in different directories
 		a, b := n-2, n-1
@@ -717,6 +755,21 @@ func c19GenerateKind(seed uint64, small, dup bool) *c19Prog {
 	for j := 1; j < n; j++ { // everything is reachable
 		if !included[j] {
 			incs[0] = append(incs[0], j)
+		}
+	}
+	if sib {
+		has := func(l []int, x int) bool {
+			for _, y := range l {
+				if y == x {
+					return true
+				}
+			}
+			return false
+		}
+		for _, e := range [][2]int{{0, 1}, {0, 2}, {0, 3}, {2, 3}, {1, 4}, {2, 4}} {
+			if !has(incs[e[0]], e[1]) {
+				incs[e[0]] = append(incs[e[0]], e[1])
+			}
 		}
 	}
 	if dup {
@@ -899,6 +952,7 @@ type c19Run struct {
 
 // c19Layout: the variations of one repetition.
 type c19Layout struct {
+	srcSeen string // the source root as the compiler sees it (through a symlink), "" = src
 	src     string // absolute source root
 	cwd     string
 	fileArg string
@@ -916,10 +970,13 @@ type c19Layout struct {
 func c19Layouts(base string, rootRel string, files map[string]string, R int, tag string) ([]c19Layout, error) {
 	kinds := make([]int, R)
 	for i := range kinds {
-		kinds[i] = i % 8
+		kinds[i] = i % c19NKinds
 	}
 	return c19LayoutsKinds(base, rootRel, files, kinds, tag)
 }
+
+// c19NKinds: number of layout kinds (cwd x spelling of the root path x -out)
+const c19NKinds = 12
 
 func c19LayoutsKinds(base string, rootRel string, files map[string]string, kinds []int, tag string) ([]c19Layout, error) {
 	srcA := filepath.Join(base, "srcA", "p")
@@ -986,10 +1043,46 @@ func c19LayoutsKinds(base string, rootRel string, files map[string]string, kinds
 			os.WriteFile(filepath.Join(mod, "go.mod"), []byte("module example.com\n\ngo 1.20\n"), 0o644)
 			l.outAbs = filepath.Join(mod, "gen")
 			l.outArg, _ = filepath.Rel(l.cwd, l.outAbs)
-		default: // adversarial module ROOT as cwd, -out below a sibling directory of the module
+		case 7: // adversarial module ROOT as cwd, -out below a sibling directory of the module
 			l.src, l.cwd = srcC, advMod
 			l.fileArg = filepath.Join(l.src, rootRel)
 			l.outAbs = filepath.Join(fresh, "x", "y")
+			l.outArg = l.outAbs
+		// ---- spellings of the root path (the include cache, the cycle list and the table of generated
+		// files are keyed by paths DERIVED from it)
+		case 8: // from INSIDE the root file's directory, as ./name
+			l.src = srcB
+			l.cwd = filepath.Dir(filepath.Join(l.src, rootRel))
+			l.fileArg = "." + string(filepath.Separator) + filepath.Base(rootRel)
+			l.outAbs = filepath.Join(fresh, "dot")
+			l.outArg = l.outAbs
+		case 9: // from a SIBLING of the root file's directory (or of the source root): ../<dir>/name
+			l.src = srcA
+			rootDir := filepath.Dir(filepath.Join(l.src, rootRel))
+			l.cwd = filepath.Join(filepath.Dir(rootDir), "zz sibling")
+			l.fileArg = filepath.Join("..", filepath.Base(rootDir), filepath.Base(rootRel))
+			l.outAbs = filepath.Join(fresh, "sib")
+			l.outArg = l.outAbs
+		case 10: // redundant components: <dir>/../<dir>/./name from the parent of the root file's directory
+			l.src = srcC
+			rootDir := filepath.Dir(filepath.Join(l.src, rootRel))
+			l.cwd = filepath.Dir(rootDir)
+			d := filepath.Base(rootDir)
+			l.fileArg = d + "/../" + d + "/./" + filepath.Base(rootRel)
+			l.outAbs = filepath.Join(fresh, "red")
+			l.outArg, _ = filepath.Rel(l.cwd, l.outAbs)
+		default: // through a symlinked directory: cwd = the root file's directory reached through the link
+			l.src = srcA
+			link := filepath.Join(base, "link to sources")
+			if _, err := os.Lstat(link); err != nil {
+				if err := os.Symlink(srcA, link); err != nil {
+					link = srcA // no symlinks here: plain repetition from inside the directory
+				}
+			}
+			l.srcSeen = link
+			l.cwd = filepath.Dir(filepath.Join(link, rootRel))
+			l.fileArg = filepath.Base(rootRel)
+			l.outAbs = filepath.Join(fresh, "lnk")
 			l.outArg = l.outAbs
 		}
 		l.desc = fmt.Sprintf("rep=%d cwd=%s file=%s out=%s", r, strings.TrimPrefix(l.cwd, base), strings.TrimPrefix(l.fileArg, base), strings.TrimPrefix(l.outArg, base))
@@ -1172,7 +1265,11 @@ func c19Exec(l c19Layout, gen string) c19Run {
 		if strings.HasPrefix(line, "Generating ") {
 			if i := strings.Index(line, " Frugal code for "); i >= 0 {
 				f := line[i+len(" Frugal code for "):]
-				rel, err := filepath.Rel(l.src, f)
+				seen := l.src
+				if l.srcSeen != "" && strings.HasPrefix(f, l.srcSeen) {
+					seen = l.srcSeen
+				}
+				rel, err := filepath.Rel(seen, f)
 				if err != nil {
 					rel = f
 				}
@@ -1297,7 +1394,7 @@ func c19Shrink(p *c19Prog, keep []bool, gen string, what string, budget time.Dur
 	c19ParallelRuns = true
 	defer func() { c19ParallelRuns = false }()
 	fails := func(k []bool) bool {
-		r := c19Task(p, k, gen, 8, false)
+		r := c19Task(p, k, gen, c19NKinds, false)
 		return !r.ok && r.invalid == "" && r.what == what
 	}
 	kinds := []string{"scope", "service", "const", "union", "exception", "struct", "enum", "typedef", "inc", "ns"}
@@ -1388,7 +1485,7 @@ func c19Task(p *c19Prog, keep []bool, gen string, R int, inproc bool) c19Result 
 // c19TaskKinds: as c19Task with an explicit choice of layouts (the replay line asks for all 8).
 func c19TaskKinds(p *c19Prog, keep []bool, gen string, kinds []int, inproc bool) c19Result {
 	files, _ := p.render(keep)
-	return c19TaskFiles(p, files, gen, -1, inproc, fmt.Sprintf("c19det %s %s %d %s", p.seedToken(), gen, 8, c19KeepString(keep)), kinds...)
+	return c19TaskFiles(p, files, gen, -1, inproc, fmt.Sprintf("c19det %s %s %d %s", p.seedToken(), gen, c19NKinds, c19KeepString(keep)), kinds...)
 }
 
 
@@ -1839,7 +1936,7 @@ func runC19(r *Rng, n int) {
 		}
 		if small {
 			for k, g := range sweep {
-				kinds := []int{0, 1, 2, 3, 4, 5, 6, 7}
+				kinds := []int{0, 1, 2, 3, 4, 5, 6, 7, 8, 9, 10, 11}
 				if R <= 8 {
 					kinds = append([]int{0, 1}, rot[k%len(rot)]...)
 				}
@@ -1851,7 +1948,11 @@ func runC19(r *Rng, n int) {
 				if R <= 8 && i > 0 && (k+i)%2 != 0 {
 					continue
 				}
-				tasks = append(tasks, task{p, g, R, i == 0 || R > 8, nil, ""})
+				var kinds []int
+				if R <= 8 {
+					kinds = []int{0, 1, 2, 3, 6}
+				}
+				tasks = append(tasks, task{p, g, R, i == 0 || R > 8, kinds, ""})
 			}
 		}
 	}
@@ -1868,9 +1969,22 @@ func runC19(r *Rng, n int) {
 			tasks = append(tasks, task{p, g, 6, R > 8, nil, ""})
 		}
 	}
+	// sibling directories with diamonds reached through different relative spellings: every base
+	// configuration, from every spelling of the root path
+	nSib := 1
+	if R > 8 {
+		nSib = 3
+	}
+	for i := 0; i < nSib; i++ {
+		p := c19GenerateSib(r.U64())
+		Stat("programs-sibling-diamond")
+		for _, g := range c19BaseGens {
+			tasks = append(tasks, task{p, g, 8, R > 8, []int{0, 6, 8, 9, 10, 11, 3, 1}, ""})
+		}
+	}
 	// output-directory history: the small programs (thorough: and one big one) for every base configuration
 	for _, t := range append([]task{}, tasks...) {
-		if t.hist == "" && t.kinds != nil && t.gen == sweep[0] { // one marker task per small program
+		if t.hist == "" && t.p.small && !t.p.dup && !t.p.sib && t.gen == sweep[0] { // one marker task per small program
 			for _, g := range c19BaseGens {
 				for _, v := range c19HistVariants {
 					tasks = append(tasks, task{t.p, g, 0, false, nil, v})
@@ -1955,7 +2069,7 @@ func runC19(r *Rng, n int) {
 		attempts++
 		keep := c19AllKeep(t.p)
 		c19ParallelRuns = true
-		first := c19Task(t.p, keep, t.gen, 8, false)
+		first := c19Task(t.p, keep, t.gen, c19NKinds, false)
 		c19ParallelRuns = false
 		Stat("shrink-attempts")
 		if first.ok || first.invalid != "" {
@@ -1965,7 +2079,7 @@ func runC19(r *Rng, n int) {
 		seenLang[lang] = true
 		small := c19Shrink(t.p, keep, t.gen, first.what, 90*time.Second)
 		c19ParallelRuns = true
-		res := c19Task(t.p, small, t.gen, 8, false)
+		res := c19Task(t.p, small, t.gen, c19NKinds, false)
 		c19ParallelRuns = false
 		if !res.ok && res.invalid == "" {
 			n := 0
@@ -2080,8 +2194,8 @@ func init() {
 		}
 		c19Setup()
 		keep := c19ParseKeep(args[3], len(p.items))
-		if R < 8 { // a replay (corpus, shrinking) should not miss a difference that shows in some runs only
-			R = 8
+		if R < c19NKinds { // a replay (corpus, shrinking) covers every layout
+			R = c19NKinds
 		}
 		c19ParallelRuns = true
 		res := c19Task(p, keep, gen, R, false)
